@@ -43,11 +43,28 @@ theorem rangeOf_cmp (op : Token) (hop : isCmpOp op = true) (v : Int) : ∃ tr, r
 
 /-! ### `creduce` on predicates and residuals -/
 
-theorem reduce_inert (c : RCtx) (e : Expr) (h : isInert e = true) : creduce c e = e := by
-  cases e <;> simp [isInert] at h <;> simp [creduce]
-  case varRef v t =>
-    unfold reduceVarRef
-    cases c.valuer <;> simp [h]
+mutual
+  theorem reduce_inert (c : RCtx) : ∀ (e : Expr), isInert e = true → creduce c e = e
+    | .call n args, h => by
+      simp only [isInert, Bool.and_eq_true, bne_iff_ne, ne_eq] at h
+      rw [creduce, reduceArgs_inert c args h.2]
+      unfold reduceCallWith
+      cases c.valuer <;> simp [h.1]
+    | .varRef v t, h => by
+      simp [isInert] at h
+      rw [creduce]
+      unfold reduceVarRef
+      cases c.valuer <;> simp [h]
+    | .string _, _ | .number _, _ | .integer _, _ | .unsigned _, _ | .boolean _, _ | .duration _, _
+    | .regex _, _ => by simp [creduce]
+    | .binary .., h | .paren _, h | .distinct _, h | .wildcard _, h | .time _, h | .nil, h
+    | .list _, h | .boundParam _, h => by simp [isInert] at h
+  theorem reduceArgs_inert (c : RCtx) : ∀ (args : List Expr), isInertArgs args = true → creduceArgs c args = args
+    | [], _ => by simp [creduceArgs]
+    | a :: rest, h => by
+      simp only [isInertArgs, Bool.and_eq_true] at h
+      rw [creduceArgs, reduce_inert c a h.1, reduceArgs_inert c rest h.2]
+end
 
 theorem isRef_inert (e : Expr) (h : isRef e = true) : isInert e = true := by
   cases e <;> simp [isRef] at h <;> simp [isInert, h]
